@@ -586,9 +586,26 @@ func init() {
 						lessJI := e.evalBool(mk(bj, bi), body)
 						lessIJ := e.evalBool(mk(bi, bj), body)
 						rng := fmt.Sprintf("(and (<= 0 %s) (< %s %s) (< %s %s))", bi, bi, bj, bj, sv.L)
-						e.assume(fmt.Sprintf("(forall ((%s Int) (%s Int)) (=> %s (not %s)))", bi, bj, rng, lessJI))
+						// quantify over absolute positions of the backing array, so that (select row I) is the trigger
+						quant := func(body string) string {
+							vi, vj := bi, bj
+							for k, v := range []string{bi, bj} {
+								if off := dominantOffset(body, v); off != "" {
+									av := q(strings.Trim(v, "|") + "@")
+									body = strings.ReplaceAll(body, "(+ "+off+" "+v+")", av)
+									body = strings.ReplaceAll(body, v, "(- "+av+" "+off+")")
+									if k == 0 {
+										vi = av
+									} else {
+										vj = av
+									}
+								}
+							}
+							return fmt.Sprintf("(forall ((%s Int) (%s Int)) %s)", vi, vj, body)
+						}
+						e.assume(quant(fmt.Sprintf("(=> %s (not %s))", rng, lessJI)))
 						if stable {
-							e.assume(fmt.Sprintf("(forall ((%s Int) (%s Int)) (=> (and %s (not %s)) (< (%s %s) (%s %s))))", bi, bj, rng, lessIJ, perm, bi, perm, bj))
+							e.assume(quant(fmt.Sprintf("(=> (and %s (not %s)) (< (%s %s) (%s %s)))", rng, lessIJ, perm, bi, perm, bj)))
 						}
 						e.trusted["sorted-by-comparator (sort.Slice/SliceStable order the range by the verified comparator)"]++
 					}
